@@ -1,21 +1,24 @@
 (* C02/Property.v — property theorems only. *)
 From Coq Require Import String List Bool Arith.
-From Verif Require Import Base.Str C02.Model C02.Spec C02.Proofs.
-From VerifGen Require Import C02Tables.
+From Verif Require Import Base.Str Base.Py Base.Py2 C02.Model C02.Spec C02.Proofs C02.Source2.
+From VerifGen Require Import C02Tables C02Src2.
 Import ListNotations.
 
-(* C02.  For EVERY document tree (unbounded depth and width), every policy that requires a signature, every
+(* C02.  For EVERY signature engine (duplicate-ID handling strict = xmlsec1 / first registration wins / last wins;
+   signature selection first ds:Signature at or below the node = xmlsec1 / ds:Signature child), EVERY document
+   tree (unbounded depth and width), every policy that requires a signature, every
    metadata / attribute map, every value of the oracle bits and every digest / signature-verification
-   function: if the acceptance path as coded (after e81db11e and 64feb908) produces an identity, then every
+   function: if the acceptance path as coded (after e81db11e, 64feb908 and 32211c52) produces an identity, then every
    reported subject identifier, attribute value, issuer, audience, validity bound and session datum is read
    from an element that the signature engine digested under a verifying signature (enveloped signature
    removed) whose certificate metadata binds to that element's own Issuer; and for every such element the
-   cryptography accepted a SignedInfo whose digest value is the digest of exactly that element.  No guard:
-   the one-signature condition and the issuer agreement are checked by the code. *)
+   cryptography accepted a SignedInfo whose digest value is the digest of exactly that element.  No guard, for
+   no engine: the one-signature condition, the uniqueness of the element among everything the engine registers
+   and the issuer agreement are checked by the code. *)
 Theorem c02_covered :
-  forall dig_ok sig_ok c o doc ddoc rep ds,
+  forall E dig_ok sig_ok c o doc ddoc rep ds,
     sig_required c -> oracle_sane o doc ddoc -> dec_sound doc ddoc ->
-    accept dig_ok sig_ok as_coded c o doc ddoc = Some (rep, ds) ->
+    accept dig_ok sig_ok E as_coded c o doc ddoc = Some (rep, ds) ->
     spec c (cov_of doc ddoc ds) rep
     /\ (forall e k, In (e, k) (cov_of doc ddoc ds) -> crypto_ok dig_ok sig_ok e k).
 Proof. exact covered_as_coded. Qed.
@@ -26,23 +29,85 @@ Print Assumptions c02_covered.
    relocation, duplication, re-identification of a genuine message either leaves the reported data those
    of a genuinely signed element or causes rejection. *)
 Theorem c02_xsw_free :
-  forall dig_ok sig_ok (issued : nat -> tree -> tree -> Prop),
+  forall E dig_ok sig_ok (issued : nat -> tree -> tree -> Prop),
     (forall k sv si, sig_ok k sv si = true -> exists e, issued k si e) ->
     (forall k si e alg dv, issued k si e -> si_digest si = Some (alg, dv) -> dig_ok alg dv e = true) ->
     (forall alg dv t t', dig_ok alg dv t = true -> dig_ok alg dv t' = true -> t = t') ->
     forall c o doc ddoc rep ds,
       sig_required c -> oracle_sane o doc ddoc -> dec_sound doc ddoc ->
-      accept dig_ok sig_ok as_coded c o doc ddoc = Some (rep, ds) ->
+      accept dig_ok sig_ok E as_coded c o doc ddoc = Some (rep, ds) ->
       spec c (cov_of doc ddoc ds) rep
       /\ (forall e k, In (e, k) (cov_of doc ddoc ds) -> exists si, issued k si e).
 Proof. exact xsw_free_as_coded. Qed.
 Print Assumptions c02_xsw_free.
 
-(* the behaviour before the two repairs (knobs_v0) satisfied the property only under the two guards ... *)
+(* the behaviour before 32211c52 (knobs_v1: the uniqueness test saw namespace-qualified elements only) satisfied the
+   property for the lenient engines only under engine_guard (trivially true for an engine strict about duplicate IDs) ... *)
+Theorem c02_v1_covered :
+  forall E dig_ok sig_ok c o doc ddoc rep ds,
+    engine_guard E doc ddoc ->
+    sig_required c -> oracle_sane o doc ddoc -> dec_sound doc ddoc ->
+    accept dig_ok sig_ok E knobs_v1 c o doc ddoc = Some (rep, ds) ->
+    spec c (cov_of doc ddoc ds) rep
+    /\ (forall e k, In (e, k) (cov_of doc ddoc ds) -> crypto_ok dig_ok sig_ok e k).
+Proof. exact covered_v1. Qed.
+Print Assumptions c02_v1_covered.
+
+(* ... C02-F3 (fixed: 32211c52; lenient engines only): the engine's --id-attr registration also matches an UN-NAMESPACED
+   element called Assertion / Response, the uniqueness test of _is_the_only_signature_child counted namespace-qualified
+   elements only.  A first-wins (last-wins) engine resolves --node-id to such an element placed before (after)
+   the forged assertion and verifies the genuine signature found below it: the forged identity was reported.
+   The witnesses lie outside engine_guard; xmlsec1 itself rejected them (duplicate ID). *)
+Theorem c02_lenient_engine_v1_refuted :
+  (exists rep ds, Ex.run_e Ex.eng_first knobs_v1 Ex.cfgA Ex.doc_bare_first = Some (rep, ds)
+                  /\ r_name_id rep = Some ("admin"%string, None)
+                  /\ oracle_sane Ex.all_ok Ex.doc_bare_first None /\ sig_required Ex.cfgA
+                  /\ ~ spec_but_issuer Ex.cfgA (cov_of Ex.doc_bare_first None ds) rep)
+  /\ (exists rep ds, Ex.run_e Ex.eng_last knobs_v1 Ex.cfgA Ex.doc_bare_last = Some (rep, ds)
+                  /\ r_name_id rep = Some ("admin"%string, None)
+                  /\ ~ spec_but_issuer Ex.cfgA (cov_of Ex.doc_bare_last None ds) rep)
+  /\ ~ engine_guard Ex.eng_first Ex.doc_bare_first None /\ ~ engine_guard Ex.eng_last Ex.doc_bare_last None
+  /\ Ex.run knobs_v1 Ex.cfgA Ex.doc_bare_first = None /\ Ex.run knobs_v1 Ex.cfgA Ex.doc_bare_last = None.
+Proof. exact f3_lenient_v1_refuted. Qed.
+Print Assumptions c02_lenient_engine_v1_refuted.
+
+(* the code as it is rejects those witnesses under all six engines and still accepts the genuine message under all six *)
+Theorem c02_lenient_engine_witness_class :
+  forallb (fun E => match Ex.run_e E as_coded Ex.cfgA Ex.doc_bare_first, Ex.run_e E as_coded Ex.cfgA Ex.doc_bare_last with
+                    | None, None => true | _, _ => false end) Ex.all_engines = true
+  /\ forallb (fun E => match Ex.names (Ex.run_e E as_coded Ex.cfgA Ex.doc_genuine) with
+                       | Some (Some ("alice"%string, None)) => true | _ => false end) Ex.all_engines = true.
+Proof. exact f3_now_rejected. Qed.
+Print Assumptions c02_lenient_engine_witness_class.
+
+(* under an engine that is strict about duplicate IDs the document-wide uniqueness test of
+   _is_the_only_signature_child is redundant: the property holds with that test switched off ... *)
+Theorem c02_uniqueness_redundant_when_strict :
+  forall E dig_ok sig_ok c o doc ddoc rep ds,
+    e_ids E = IdStrict ->
+    sig_required c -> oracle_sane o doc ddoc -> dec_sound doc ddoc ->
+    accept dig_ok sig_ok E no_uniq c o doc ddoc = Some (rep, ds) ->
+    spec c (cov_of doc ddoc ds) rep
+    /\ (forall e k, In (e, k) (cov_of doc ddoc ds) -> crypto_ok dig_ok sig_ok e k).
+Proof. exact covered_strict_without_uniq. Qed.
+Print Assumptions c02_uniqueness_redundant_when_strict.
+(* ... and necessary under the lenient ones: with it switched off a first-wins engine accepts the forged assertion
+   when the genuine one with the same ID is parked earlier in the document, a last-wins engine when it is parked
+   later; the code as it is rejects both under those engines *)
+Theorem c02_necessity_unique_id_first_wins : permits_wrapping_e Ex.eng_first no_uniq Ex.doc_dup_first.
+Proof. exact necessity_uniq_first. Qed.
+Print Assumptions c02_necessity_unique_id_first_wins.
+Theorem c02_necessity_unique_id_last_wins : permits_wrapping_e Ex.eng_last no_uniq Ex.doc_dup.
+Proof. exact necessity_uniq_last. Qed.
+Print Assumptions c02_necessity_unique_id_last_wins.
+
+(* the behaviour before the two repairs (knobs_v0) satisfied the property only under the two guards (and only with
+   an engine that is strict about duplicate IDs: there was no uniqueness test) ... *)
 Theorem c02_v0_covered :
-  forall dig_ok sig_ok c o doc ddoc rep ds,
+  forall E dig_ok sig_ok c o doc ddoc rep ds,
+    e_ids E = IdStrict ->
     sig_required c -> sig_guard doc ddoc -> issuer_guard doc ddoc -> oracle_sane o doc ddoc -> dec_sound doc ddoc ->
-    accept dig_ok sig_ok knobs_v0 c o doc ddoc = Some (rep, ds) ->
+    accept dig_ok sig_ok E knobs_v0 c o doc ddoc = Some (rep, ds) ->
     spec c (cov_of doc ddoc ds) rep
     /\ (forall e k, In (e, k) (cov_of doc ddoc ds) -> crypto_ok dig_ok sig_ok e k).
 Proof. exact covered_v0. Qed.
@@ -84,9 +149,6 @@ Print Assumptions c02_issuer_witness_class.
 Theorem c02_necessity_uri : permits_wrapping no_uri Ex.doc_uri.
 Proof. exact necessity_uri. Qed.
 Print Assumptions c02_necessity_uri.
-Theorem c02_necessity_duplicate_id : permits_wrapping no_dup Ex.doc_dup.
-Proof. exact necessity_dup. Qed.
-Print Assumptions c02_necessity_duplicate_id.
 Theorem c02_necessity_node_id : permits_wrapping no_nodeid Ex.doc_nodeid.
 Proof. exact necessity_nodeid. Qed.
 Print Assumptions c02_necessity_node_id.
@@ -103,6 +165,14 @@ Print Assumptions c02_necessity_first_signature_is_child.
 Theorem c02_necessity_exact_id : permits_wrapping no_exact doc_case_id.
 Proof. exact necessity_exact_id. Qed.
 Print Assumptions c02_necessity_exact_id.
+
+(* the engine guard of c02_v1_covered is satisfiable and the genuine message is accepted with alice's identity under all six engines *)
+Theorem c02_engines_nonvacuous :
+  (forall E, engine_guard E Ex.doc_genuine None)
+  /\ forallb (fun E => match Ex.names (Ex.run_e E as_coded Ex.cfgA Ex.doc_genuine) with
+                       | Some (Some ("alice"%string, None)) => true | _ => false end) Ex.all_engines = true.
+Proof. exact genuine_all_engines. Qed.
+Print Assumptions c02_engines_nonvacuous.
 
 (* the hypotheses are satisfiable: the genuine message satisfies the oracle assumptions, is accepted with
    alice's identity, and the example primitives are ideal *)
@@ -136,3 +206,110 @@ Theorem c02_live_constants :
   /\ live_node_name = "urn:oasis:names:tc:SAML:2.0:assertion:Assertion"%string.
 Proof. repeat split; reflexivity. Qed.
 Print Assumptions c02_live_constants.
+
+(* ================================================================== source tie, translator v2 *)
+(* coq/gen/C02Src2.v is re-translated from the CURRENT text of saml2/response.py and saml2/sigver.py on every run;
+   each theorem says, for ALL inputs of the model's domain, that the translated function on the encoded input is the
+   encoded outcome the model ascribes to the code.  External calls are universally quantified functions with the
+   stated hypotheses (C02/Source2.v shows each set of hypotheses satisfiable). *)
+
+(* response.StatusResponse.issuer: the reported issuer is the stripped text of the LAST Issuer child of the envelope,
+   "" when there is none *)
+Theorem c02_source2_issuer : forall s root,
+  issuer_text_ok root -> src2_issuer (enc_self s root) = PStr (issuer_text root).
+Proof. exact src2_issuer_is_model. Qed.
+Print Assumptions c02_source2_issuer.
+
+(* sigver.SecurityContext.correctly_signed_response: a Response that carries a signature is handed to
+   _check_signature with the received text, the parsed element, its node name and origdoc (and its exception
+   propagates); one without a signature is refused exactly when the policy bit is set *)
+Theorem c02_source2_correctly_signed_response :
+  forall (parse_resp : pyval -> pyval) (check_sig : pyval -> pyval -> pyval -> pyval -> pyval)
+         (xml : string) (r : option tree) (origdoc csr : option string),
+    parse_resp (PStr xml) = match r with Some t => enc_response t | None => PNone end ->
+    (forall t, r = Some t -> check_sig (PStr xml) (enc_response t) (PStr R_NODE) (enc_opt origdoc) = enc_unit csr) ->
+    forall (self must ovc : pyval) (req dnv : bool),
+      src2_correctly_signed_response parse_resp check_sig self (PStr xml) must (enc_opt origdoc) ovc (PBool req) (enc_kwargs dnv)
+      = match r with
+        | None => PExc "TypeError"
+        | Some t => match single SIGNATURE t with
+                    | Some _ => if dnv then enc_response t
+                                else match csr with None => enc_response t | Some n => PExc n end
+                    | None => if req then PExc "SignatureError" else enc_response t
+                    end
+        end.
+Proof. exact src2_correctly_signed_response_is_model. Qed.
+Print Assumptions c02_source2_correctly_signed_response.
+
+(* ... which is the decision Model.accept makes for the Response (Proofs.response_check) *)
+Theorem c02_source2_correctly_signed_response_model :
+  forall (parse_resp : pyval -> pyval) (check_sig : pyval -> pyval -> pyval -> pyval -> pyval)
+         (xml : string) (r : option tree) (origdoc csr : option string),
+    parse_resp (PStr xml) = match r with Some t => enc_response t | None => PNone end ->
+    (forall t, r = Some t -> check_sig (PStr xml) (enc_response t) (PStr R_NODE) (enc_opt origdoc) = enc_unit csr) ->
+    forall dig_ok sig_ok E K c o doc (self must ovc : pyval),
+      r = Some doc ->
+      (csr = None <-> check_signature dig_ok sig_ok E K c doc doc R_NAME "" (schema_root o) <> None) ->
+      (is_bad (src2_correctly_signed_response parse_resp check_sig self (PStr xml) must (enc_opt origdoc) ovc
+                 (PBool (want_resp c)) (enc_kwargs false)) = true
+       <-> response_check dig_ok sig_ok E K c o doc = None).
+Proof. exact src2_correctly_signed_response_rejects_like_model. Qed.
+Print Assumptions c02_source2_correctly_signed_response_model.
+
+(* sigver.CryptoBackendXmlSec1.validate_signature: xmlsec1 is run with --id-attr:ID <node name> always and
+   --node-id <id> exactly when the id is a non-empty string, on the text that was given; XmlsecError becomes
+   SignatureError, anything else propagates; the verdict is parse_xmlsec_verify_output(stderr, version) *)
+Theorem c02_source2_validate_signature :
+  forall (run_xmlsec parse_out : pyval -> pyval -> pyval) (xmlsec text cert ctype nn : string) (nid : option string)
+         (version : pyval) (dtf : bool) (run_res : string + (string * string * string)),
+    run_xmlsec (PList (verify_com_list xmlsec cert ctype nn nid)) (PList [PStr text]) = enc_run run_res ->
+    is_bad version = false ->
+    src2_validate_signature run_xmlsec parse_out (vs_self xmlsec version dtf) (PStr text) (PStr cert) (PStr ctype) (PStr nn) (enc_opt nid)
+    = match run_res with
+      | inl n => if String.eqb n "XmlsecError" then PExc "SignatureError" else PExc n
+      | inr (_, e, _) => parse_out (PStr e) version
+      end.
+Proof. exact src2_validate_signature_is_model. Qed.
+Print Assumptions c02_source2_validate_signature.
+
+(* response.AuthnResponse._assertion: signature decision, issuer agreement (64feb908), then the external checks *)
+Theorem c02_source2_assertion :
+  forall (check_sig : pyval -> pyval -> pyval -> pyval) (authn_ok cond_ok get_subject : pyval -> pyval)
+         (s : sp_state) (root a : tree) (verified : bool) (csr ao gs : option string) (co : bool + string),
+    check_sig (enc_assertion a) (PStr A_NODE) (PStr (st_xmlstr s)) = enc_unit csr ->
+    authn_ok (self1 s root a) = enc_unit ao ->
+    cond_ok (self1 s root a) = match co with inl b => PBool b | inr n => PExc n end ->
+    get_subject (self1 s root a) = enc_unit gs ->
+    issuer_text_ok root ->
+    match single ISSUER a with Some i => end_ascii (strip (text i)) = true | None => True end ->
+    src2_assertion check_sig authn_ok cond_ok get_subject (self0 s root) (enc_assertion a) (PBool verified)
+    = assertion_outcome s root a verified csr ao gs co.
+Proof. exact src2_assertion_is_model. Qed.
+Print Assumptions c02_source2_assertion.
+
+(* ... and what Model.check_assertions rejects, _assertion rejects *)
+Theorem c02_source2_assertion_model :
+  forall (check_sig : pyval -> pyval -> pyval -> pyval) (authn_ok cond_ok get_subject : pyval -> pyval)
+         (s : sp_state) (root a : tree) (verified : bool) (csr ao gs : option string) (co : bool + string),
+    check_sig (enc_assertion a) (PStr A_NODE) (PStr (st_xmlstr s)) = enc_unit csr ->
+    authn_ok (self1 s root a) = enc_unit ao ->
+    cond_ok (self1 s root a) = match co with inl b => PBool b | inr n => PExc n end ->
+    get_subject (self1 s root a) = enc_unit gs ->
+    issuer_text_ok root ->
+    match single ISSUER a with Some i => end_ascii (strip (text i)) = true | None => True end ->
+    (issuer_check as_coded root a = false
+     \/ (single SIGNATURE a = None /\ st_require_signature s = true)
+     \/ (single SIGNATURE a <> None /\ verified = false /\ st_do_not_verify s = false /\ csr <> None)) ->
+    is_fail (src2_assertion check_sig authn_ok cond_ok get_subject (self0 s root) (enc_assertion a) (PBool verified)) = true.
+Proof. exact src2_assertion_rejects_like_model. Qed.
+Print Assumptions c02_source2_assertion_model.
+
+(* sigver.SecurityContext._check_signature, the block of the nine validators: it falls through exactly when
+   Model.validators holds, and raises otherwise *)
+Theorem c02_source2_validators :
+  forall (cls nn : string) (item : tree) (xml node issuer : pyval),
+    is_bad xml = false -> is_bad node = false -> is_bad issuer = false -> ref_uri_ok item ->
+    (validators as_coded item = true -> run_validators cls nn item xml node issuer = PNone)
+    /\ (validators as_coded item = false -> exists n, run_validators cls nn item xml node issuer = PExc n).
+Proof. exact src2_validators_is_model. Qed.
+Print Assumptions c02_source2_validators.
